@@ -168,7 +168,13 @@ impl ROp {
         }
     }
     pub fn describe(&self) -> String {
-        let f = |v: &Vec<Fr>| v.iter().map(|x| fr_to_big(x).to_string()).collect::<Vec<_>>();
+        let f = |v: &Vec<Fr>| {
+            let mut out: Vec<String> = v.iter().take(6).map(|x| fr_to_big(x).to_string()).collect();
+            if v.len() > 6 {
+                out.push(format!("… {} leaves in total", v.len()));
+            }
+            out
+        };
         match self {
             ROp::Set(i, v) => format!("set({i}, {})", fr_to_big(v)),
             ROp::Delete(i) => format!("delete({i})"),
@@ -724,6 +730,24 @@ pub fn probe_positions(m: &TreeModel, extra: &[usize]) -> Vec<usize> {
     if cap <= 64 {
         return (0..cap).collect();
     }
+    if extra.len() > 64 {
+        // after a large range / batch write: every position of a mid-size tree, otherwise every
+        // written position and its sibling (a storage layer that loses part of a large write must
+        // not slip between sampled probes)
+        if cap <= 2048 {
+            return (0..cap).collect();
+        }
+        let mut v: Vec<usize> = vec![0, 1, cap / 2 - 1, cap / 2, cap - 2, cap - 1];
+        for &i in extra {
+            if i < cap {
+                v.push(i);
+                v.push(i ^ 1);
+            }
+        }
+        v.sort();
+        v.dedup();
+        return v;
+    }
     let mut v: Vec<usize> = vec![0, 1, cap / 2 - 1, cap / 2, cap - 2, cap - 1];
     for (&i, _) in m.leaves.iter() {
         v.push(i);
@@ -774,7 +798,7 @@ pub fn compare(b: &mut dyn Backend, m: &TreeModel, focus: Focus, extra: &[usize]
                 return Err(format!("{name}: root() = {}, ideal tree root = {}", fr_to_big(&got), fr_to_big(&want)));
             }
             n += 1;
-            let levels: Vec<usize> = if m.depth <= 6 { (0..=m.depth).collect() } else { vec![0, 1, m.depth / 2, m.depth - 1, m.depth] };
+            let levels: Vec<usize> = if m.depth <= 6 || extra.len() > 64 { (0..=m.depth).collect() } else { vec![0, 1, m.depth / 2, m.depth - 1, m.depth] };
             for level in levels {
                 let mut seen = std::collections::BTreeSet::new();
                 for &i in &probes {
@@ -854,8 +878,8 @@ pub fn step(
     };
     let touched: Vec<usize> = match &rop {
         ROp::Set(i, _) | ROp::Delete(i) => vec![*i],
-        ROp::SetRange(s, v) => (0..v.len().min(40)).map(|k| s.wrapping_add(k)).collect(),
-        ROp::Batch(s, v, r) => (0..v.len().min(40)).map(|k| s.wrapping_add(k)).chain(r.iter().copied()).collect(),
+        ROp::SetRange(s, v) => (0..v.len().min(4096)).map(|k| s.wrapping_add(k)).collect(),
+        ROp::Batch(s, v, r) => (0..v.len().min(4096)).map(|k| s.wrapping_add(k)).chain(r.iter().copied()).collect(),
         _ => vec![],
     };
     let desc = rop.describe();
@@ -909,8 +933,17 @@ pub fn vals(max: usize) -> BoxedStrategy<Vec<u8>> {
     proptest::collection::vec(0u8..POOL as u8, 0..=max).boxed()
 }
 
+/// a few hundred to a couple of thousand leaves in one request (more node entries than any
+/// batching threshold a storage layer is likely to use); values cycle through the pool
+pub fn big_vals() -> BoxedStrategy<Vec<u8>> {
+    (prop_oneof![Just(257usize), Just(512usize), Just(600usize), Just(1024usize), Just(1500usize), 65usize..2000], 1u8..POOL as u8)
+        .prop_map(|(n, k)| (0..n).map(|i| 1 + ((i as u8).wrapping_mul(k)) % (POOL as u8 - 1)).collect())
+        .boxed()
+}
+
 pub fn op_basic() -> BoxedStrategy<Op> {
     prop_oneof![
+        1 => (prop_oneof![Just(Pos { kind: PosKind::Zero, raw: 0 }), Just(Pos { kind: PosKind::Mark, raw: 0 }), any::<u16>().prop_map(|raw| Pos { kind: PosKind::Uniform, raw: raw % 256 })], big_vals()).prop_map(|(p, v)| Op::SetRange(p, v)),
         6 => (pos_any(), 0u8..POOL as u8).prop_map(|(p, v)| Op::Set(p, v)),
         3 => pos_any().prop_map(Op::Delete),
         4 => (0u8..POOL as u8).prop_map(Op::Append),
